@@ -48,7 +48,9 @@ def parseNew (toks : List String) : Cfg :=
             endgame := cfgNat "cfg.EndgameMaxDuplicateDownloads" 20,
             afK := cfgNat "cfg.AllowedFastSet" 10,
             isPrivate := kvStr toks "private" = "1",
-            pex := kvStr toks "pex" ≠ "0" }
+            pex := kvStr toks "pex" ≠ "0",
+            stopAfterMeta := kvStr toks "stopaftermeta" = "1",
+            maxPieces := cfgNat "cfg.MaxPieces" 65536 }
 
 def initSt (c : Cfg) (magnet : Bool) : St :=
   { cfg := c, info := !magnet, fileExists := c.flens.map fun _ => false, known := c.flens.map fun _ => false,
@@ -276,8 +278,14 @@ def oracles (prev s : St) (impl : List (String × String)) (prevDials : Nat := 0
         match msg.splitOn ":" with
         | ["have", i] => if !(bfBits.getD (parseNat! i) false) then some s!"C01 have-for-missing-piece piece={i}" else none
         | ["piece", i, _, _, verdict] =>
+          let pk := (k.drop 1).toString.toNat?.getD 0
+          -- choked before and after this op, and the piece was never granted as allowed-fast
+          let chokedThroughout := ((prev.peers.find? (·.k = pk)).map (·.clientChoking)).getD false &&
+            ((s.peers.find? (·.k = pk)).map (·.clientChoking)).getD false
+          let granted := ((s.peers.find? (·.k = pk)).map fun p => p.sentAF.contains (parseNat! i)).getD true
           if verdict ≠ "ok" then some s!"C03 served-wrong-bytes piece={i}"
-          else if !(bfBits.getD (parseNat! i) false) then some s!"C03 served-piece-not-held piece={i}" else none
+          else if !(bfBits.getD (parseNat! i) false) then some s!"C03 served-piece-not-held piece={i}"
+          else if chokedThroughout && !granted then some s!"C03 choked-peer-served peer={pk} piece={i}" else none
         | _ => none
     else []
   -- C04: status truthful
@@ -287,6 +295,9 @@ def oracles (prev s : St) (impl : List (String × String)) (prevDials : Nat := 0
     (if st = "Stopped" && get "npeers" ≠ "0" then ["C04 stopped-with-peers"] else []) ++
     (if st = "Stopped" && get "open" ≠ "0" then [s!"C04 stopped-with-open-files open={get "open"}"] else []) ++
     (if st = "Stopped" && get "dl" ≠ "-" then ["C04 stopped-with-downloads"] else [])
+  -- C06: an info dictionary received from peers is held to the session's piece-count limit like any other
+  let c06 := if !s.infoAtAdd && s.cfg.n > s.cfg.maxPieces && get "info" = "1"
+    then [s!"C06 metadata-over-piece-limit-accepted pieces={s.cfg.n} limit={s.cfg.maxPieces}"] else []
   -- C10: no idle eligible peer (safety form)
   let c10 := (idleEligible s).map fun (k, i) => s!"C10 idle-eligible peer={k} piece={i}"
   -- C17: reservations balance (one reservation per running download)
@@ -313,7 +324,7 @@ def oracles (prev s : St) (impl : List (String × String)) (prevDials : Nat := 0
       (s.peers.filter fun p => p.extHS && p.extMeta && p.extSize ≠ 0 && p.extSize ≤ s.maxMeta && !(s.idls.any (·.k = p.k))).map
         fun p => s!"C13 idle-metadata-source peer={p.k}"
     else []
-  c01a ++ c01b ++ c01c ++ c04 ++ c10 ++ c17 ++ c19 ++ c05 ++ c13
+  c01a ++ c01b ++ c01c ++ c06 ++ c04 ++ c10 ++ c17 ++ c19 ++ c05 ++ c13
 
 /-- C04: after the final phase (restart + honest seed answering every request) the torrent must be
 complete with correct files. -/
